@@ -10,7 +10,7 @@ NOTE = ("Trusted: rustc's MIR construction, the fact driver's place/field-name r
         "the analysed functions); behaviour over values/histories that is not a function of code shape is explicitly not decided (see DESIGN.md).")
 
 CLAIMED = {
-    "C01": ("§4 C01", "Necessary conditions only: dedup-before-deliver cut-set in handle_data; who-may-write the receive point/tags; association set-up must not clobber a live association (known findings); serial-number-arithmetic lint and a units rule keeping own-TSN and peer-TSN values apart; chunks leave the reorder buffer only by serial key; gap ack offsets applied to the SACK's own cumulative ack; the T3 sweep marks, re-times or abandons every outstanding chunk; FORWARD-TSN drains what became in order; the PR-SCTP ack point advances only over abandoned chunks; SSN/fragment lock discipline. Delivery over arbitrary loss/dup/reorder histories and bounded-time completion are not decided."),
+    "C01": ("§4 C01", "Necessary conditions only: dedup-before-deliver cut-set in handle_data; who-may-write the receive point/tags; association set-up must not clobber a live association and answers a retransmitted INIT with the same values; serial-number-arithmetic lint and a units rule keeping own-TSN and peer-TSN values apart; chunks leave the reorder buffer only by serial key; gap ack offsets applied to the SACK's own cumulative ack; the T3 sweep marks, re-times or abandons every outstanding chunk; FORWARD-TSN drains what became in order; the PR-SCTP ack point advances only over abandoned chunks; SSN/fragment lock discipline. Delivery over arbitrary loss/dup/reorder histories and bounded-time completion are not decided."),
     "C02": ("§4 C02", "Assume/guarantee chain over the DTLS handshake context (Connected => Finished verified => keys after verified key exchange => signature by the fingerprinted certificate => fingerprint from remote SDP), each link a cut-set/who-may rule over all CFG paths; the ServerKeyExchange signature input is the RFC 4492 5.4 byte sequence in verifier and signer; application data is handed up only from records authenticated under the negotiated keys; the server-role gap is reported as a known finding."),
     "C03": ("§4 C03", "Cut-set rules: no upward effect from an unauthenticated record; only the sealed buffer is sent, only under Connected, bounded record size; every AEAD seal consumes a fresh sequence number (atomic RMW or counter advanced on every path); the AEAD additional data is built from the record header fields as received (dataflow)."),
     "C05": ("§4 C05", "Cut-set rules: replay/rollover state (incl. writes through &mut borrows and callees), Ok returns and per-SSRC table changes (transitively through session helpers) in the SRTP receive path are reachable only past an authentication-success edge; the SRTCP AEAD input contains the received header, body and index word unmodified; the HMAC tag comparator pairs every byte of one operand with the same byte of the other over their whole (equal) length; transport drops on unprotect error."),
